@@ -1,5 +1,5 @@
 CONSTANTS Engines = {"sherpa", "olla"}  Profiles = ${Profiles}  CTs = ${CTs}  Kinds = ${Kinds}
-          ChunkSizes = ${ChunkSizes}  StallPoints = ${StallPoints}
+          ChunkSizes = ${ChunkSizes}  StallPoints = ${StallPoints}  Routes = ${Routes}
 INIT Init
 NEXT Next
 INVARIANT Export
